@@ -398,7 +398,7 @@ function!(BitNot(b:Integer)=>Integer, {
 
 function!(Negative(b:Integer)=>Integer, {
     let b:i64 = b.try_into()?;
-    Ok((-b).into())
+    b.checked_neg().map(Into::into).ok_or_else(|| err_msg("integer overflow"))
 });
 
 macro_rules! int_op{
@@ -411,22 +411,42 @@ macro_rules! int_op{
     }
 }
 
-int_op!(Plus,+);
-int_op!(Minus,-);
-int_op!(Multiply,*);
-int_op!(Divide,/);
-int_op!(Mod,%);
+// arithmetic that can overflow or divide by zero is an evaluation error, never a trap
+macro_rules! checked_int_op{
+    ($name:ident, $method:ident, $what:expr) =>{
+        function!($name(a: Integer, b: Integer)=>Integer, {
+            let a:i64 = a.try_into()?;
+            let b:i64 = b.try_into()?;
+            a.$method(b).map(Into::into).ok_or_else(|| err_msg($what))
+        });
+    }
+}
+
+macro_rules! checked_shift_op{
+    ($name:ident, $method:ident) =>{
+        function!($name(a: Integer, b: Integer)=>Integer, {
+            let a:i64 = a.try_into()?;
+            let b:i64 = b.try_into()?;
+            u32::try_from(b).ok().and_then(|b| a.$method(b)).map(Into::into).ok_or_else(|| err_msg("shift amount out of range"))
+        });
+    }
+}
+
+checked_int_op!(Plus, checked_add, "integer overflow");
+checked_int_op!(Minus, checked_sub, "integer overflow");
+checked_int_op!(Multiply, checked_mul, "integer overflow");
+checked_int_op!(Divide, checked_div, "division by zero");
+checked_int_op!(Mod, checked_rem, "division by zero");
 int_op!(BitAnd,&);
 int_op!(BitOr,|);
 int_op!(BitXor,^);
-int_op!(ShiftLeft,<<);
-int_op!(ShiftRight,>>);
+checked_shift_op!(ShiftLeft, checked_shl);
+checked_shift_op!(ShiftRight, checked_shr);
 function!(ShiftRightUnsigned(a: Integer, b: Integer)=>Integer, {
     let a:i64 = a.try_into()?;
     let b:i64 = b.try_into()?;
     let a = a as u64;
-    let a = (a >> b) as i64;
-    Ok(a.into())
+    u32::try_from(b).ok().and_then(|b| a.checked_shr(b)).map(|a| (a as i64).into()).ok_or_else(|| err_msg("shift amount out of range"))
 });
 
 function!(And(a: Boolean, b: Boolean)=>Boolean, ctx=ctx, arg_opts=raw,{
